@@ -16,7 +16,7 @@ RULE = ('seeded generator: complex pupil fields 2..20 per side, integers N_r, N_
 ASSUMPTIONS = ['1/alpha is an integer number of samples on each axis (commensurate sampling), as the property states']
 PLAN = {'quick': {'gen': 8}, 'thorough': {'gen': 16, 'tests': 1, 'docs': 1}}
 REQUIRED_BUCKETS = ['N:rect', 'N:square', 'dx:aniso', 'dx:iso', 'os=1', 'os=2', 'os=3', 'N:odd', 'N:even', 'fft', 'dft',
-                    'nested', 'normalize_power', 'normalize_power:small-int', 'fft:any-period', 'fft:period%os!=0', 'amp:signed']
+                    'nested', 'normalize_power', 'normalize_power:small-int', 'normalize_power:narrow-float', 'fft:any-period', 'fft:period%os!=0', 'amp:signed']
 REQUIRED_ANCHORS = ['probe:propagate_dft', 'probe:propagate_fft', 'anchor:_fft2', 'anchor:normalize_power',
                     'anchor:dft2']
 REQUIRED_ORACLES = ['dft:full-period', 'fft:full-period', 'nested:monotone', 'intensity>=0', 'normalize_power',
@@ -265,8 +265,20 @@ def workload(ctx, lentil):
                 a = rng.integers(int(np.iinfo(dt).max * 0.5), np.iinfo(dt).max, size=big, endpoint=True).astype(dt)
             shape = big
             ctx.bucket('normalize_power:small-int')
+        narrow = None
+        if i % 9 == 7:
+            # amplitude maps held in half / single precision (compact storage, FITS files): large apertures whose power
+            # exceeds what float16 can count, and ordinary ones whose sum of squares is rounded in the narrow type
+            narrow = [np.float16, np.float32, np.complex64][int(rng.integers(0, 3))]
+            big = (int(rng.integers(17, 24)) * 12, int(rng.integers(17, 24)) * 12) if narrow is np.float16 and rng.random() < 0.5 else shape
+            a = rng.uniform(0.5, 1.0, size=big)
+            if narrow is np.complex64:
+                a = a * np.exp(1j * rng.uniform(-3, 3, size=big))
+            a = a.astype(narrow)
+            shape = big
+            ctx.bucket('normalize_power:narrow-float')
         p = float(np.exp(rng.uniform(np.log(1e-3), np.log(1e6)))) if rng.random() < 0.8 else 1
-        kindp = i % 5 if a.dtype.kind in 'fc' else 0
+        kindp = i % 5 if a.dtype.kind in 'fc' and narrow is None else 0
         if kindp == 3:
             # input whose power is already within 1e-9..1e-4 (relative) of the target: still has to come out at exactly p
             a = a * np.sqrt(p / np.sum(np.abs(a) ** 2)) * (1 + float(10 ** rng.uniform(-9, -4)) * rng.choice([-1, 1]))
@@ -279,7 +291,7 @@ def workload(ctx, lentil):
         b = lentil.normalize_power(a, p) if p != 1 or rng.random() < 0.5 else lentil.normalize_power(a)
         af = a.astype(complex if np.iscomplexobj(a) else float)      # the same numbers, in a type that cannot wrap
         desc['dtype'] = str(a.dtype)
-        ctx.close('normalize_power', np.array([np.sum(np.abs(b) ** 2)]), np.array([p]), 1e-12, 'normalize_power|power',
+        ctx.close('normalize_power', np.array([float(np.sum(np.abs(np.asarray(b).astype(np.clongdouble)) ** 2))]), np.array([p]), 1e-12, 'normalize_power|power',
                   'normalize_power(a, p) does not have power p', desc, scale=p)
         ctx.close('normalize_power', b * np.sqrt(np.sum(np.abs(af) ** 2) / p), af, 1e-12, 'normalize_power|direction',
                   'normalize_power changed more than the overall scale', desc, scale=float(np.abs(af).max()))
